@@ -414,6 +414,10 @@ func scenC19(run *vlab.Run, sx, tmp string) {
 		size := 1 << uint(32-bits)
 		interval := []int{100, 200, 400}[rng.Intn(3)]
 		passesWanted := 4 + rng.Intn(3)
+		if i%8 == 5 {
+			// intervals that are not whole seconds, above one second
+			interval, passesWanted = []int{1400, 2300, 1499}[i/8%3], 2
+		}
 		var exclude string
 		args := []string{"arp", "--json", "-i", "tap0", "--live", fmt.Sprintf("%dms", interval), "--srcip", foreignSrcIP}
 		if rng.Intn(3) == 0 {
@@ -603,9 +607,25 @@ func scenC11(run *vlab.Run, sx, tmp string) {
 		run.Case(fmt.Sprintf("c11w%03d/arp", i), subnet)
 		// ---- run A: the ARP scan
 		argsA := []string{"arp", "--json", "-i", "tap0", "--srcip", foreignSrcIP, subnet}
+		liveA := i%4 == 2
+		if liveA {
+			// the README's other way to build a cache: a live scan that is interrupted after a while
+			argsA = []string{"arp", "--json", "--live", "150ms", "-i", "tap0", "--srcip", foreignSrcIP, subnet}
+		}
+		var muA sync.Mutex
+		probesA := 0
 		resA := RunCase(sx, &CaseSpec{Args: argsA, Setup: commonWorld("tap"), Timeout: 60 * time.Second,
 			OnTx: func(cr *CaseRun, d *Dev, frame []byte) {
 				_, a, _, ok := decodeProbe("arp", frame, oracle.LinkEthernet)
+				if ok && liveA {
+					muA.Lock()
+					probesA++
+					fire := probesA == 2*int(size)+1
+					muA.Unlock()
+					if fire {
+						cr.Signal(syscall.SIGINT)
+					}
+				}
 				if m, up := macOf[a]; ok && up {
 					cr.Inject(d, oracle.BuildEth(tapMACb, m, oracle.EtherTypeARP, oracle.BuildARP(2, m, oracle.U32ToIP(a), tapMACb, foreignSrc)))
 					if rng.Intn(4) == 0 { // answered twice: two lines, the last wins (same MAC here)
@@ -619,8 +639,11 @@ func scenC11(run *vlab.Run, sx, tmp string) {
 				}
 			}})
 		run.Eval(1)
-		if !baseChecks(run, resA, argsA, true) {
+		if !baseChecks(run, resA, argsA, !liveA) {
 			continue
+		}
+		if liveA {
+			run.Count("arp_live_runs_as_cache_source", 1)
 		}
 		arpOut := strings.Join(resA.Stdout, "")
 		if strings.Contains(resA.Stderr, "\"level\":\"error\"") || strings.Contains(resA.Stderr, "error") {
